@@ -99,7 +99,11 @@ def oracles(cfgs0, sq, stats):
         arrow = f.index("=>")
         op, args, res = f[1], [int(x) for x in f[2:arrow]], f[arrow + 1]
         if res == "panic":
-            bad("no_panic", k, "implementation panicked"); break
+            if sq.cls == "domain" and k == len(sq.lines) - 1:
+                stats["o_domain"] += 1          # precondition probes: the code panics exactly where the model says RBad
+            else:
+                bad("no_panic", k, "implementation panicked")
+            break
         states = dict(parse_state(t) for t in f[arrow + 2:])
         if op == "B" and args[0] not in states:      # long sequences dump the state rarely: only the step bounds are checked
             i, cid, maxms, errid, api, sleep = args
@@ -350,14 +354,28 @@ def site_oracle(text, stats):
         r = json.loads(l.split("\t", 1)[1]); n += 1
         stats["o_call_site"] += 1
         b, a, k = r["before"], r["after"], r["k"]
-        gain = sum(min(500, 2 * 2 ** x) for x in range(k))
-        exp_sleep = dict(b["sleep"]); exp_sleep["regionMiss"] = exp_sleep.get("regionMiss", 0) + gain
-        exp_times = dict(b["times"]); exp_times["regionMiss"] = exp_times.get("regionMiss", 0) + k
-        want = dict(total=b["total"] + gain, errnum=b["errnum"] + k, sleep=exp_sleep, times=exp_times,
-                    types=(b["types"] or []) + ["regionMiss"] * k, ttimes=b["ttimes"] + k)
+        # txn consumers retry on the worker's own back-offer (2, 4 ms); rawkv retries through a nested sendBatch* call
+        # that forks again, so every retry sleeps through a fresh closure (2, 2 ms) and is merged up level by level.
+        # rawkv cancels the shared fork context on the first error: the other workers' back-offs then return at once,
+        # so on an error ending the merged worker may have slept any t <= k times.
+        raw = r["site"].startswith("raw")
+        ts = list(range(k + 1)) if (raw and r["ending"] == "error") else [k]
         got = dict(a); got["types"] = got["types"] or []
-        diff = [x for x in want if want[x] != got[x]]
-        res_ok = (r["err"] == "") == (r["ending"] == "ok") and (r["site"] != "batchget" or r["ending"] != "ok" or r["values"] == 2 * r["workers"])
+        diff, gain = None, 0
+        for t in ts:
+            gain = 2 * t if raw else sum(min(500, 2 * 2 ** x) for x in range(t))
+            exp_sleep = dict(b["sleep"]); exp_times = dict(b["times"])
+            if t:
+                exp_sleep["regionMiss"] = exp_sleep.get("regionMiss", 0) + gain
+                exp_times["regionMiss"] = exp_times.get("regionMiss", 0) + t
+            want = dict(total=b["total"] + gain, errnum=b["errnum"] + t, sleep=exp_sleep, times=exp_times,
+                        types=(b["types"] or []) + ["regionMiss"] * t, ttimes=b["ttimes"] + t)
+            d = [x for x in want if want[x] != got[x]]
+            if not d:
+                diff = []
+                break
+            diff = d
+        res_ok = (r["err"] == "") == (r["ending"] == "ok") and (r["site"] not in ("batchget", "rawbatchget") or r["ending"] != "ok" or r["values"] == 2 * r["workers"])
         if diff:
             lost = a["total"] == b["total"] and a["ttimes"] == b["ttimes"]
             fails.append(("C20_call_site", r, "%s (%d workers, each backs off %d x regionMiss = %d ms, ending %s, slow region %s): the caller's back-offer "
@@ -386,6 +404,28 @@ def run_pipeline(exe, modelrun, env, replay_lines=None):
     return (lines, cmp_out), None
 
 
+def recorded_trace_check(rec, modelrun):
+    """relational replay: the replay file holds the op sequence WITH the jitter draws and results observed when it was
+    recorded; they are fed to the model (admissibility of every recorded draw, agreement of results / states) and to
+    the property oracles without executing any code — the recorded verdict is reproduced exactly."""
+    lines = list(rec.get("kinds", [])) + list(rec.get("case", [])) + ["E\t0"]
+    rc, out = vlib.sh([modelrun], inp="\n".join(lines) + "\n", timeout=120)
+    res = {"model_run": "ok" if rc == 0 else out[-200:], "inadmissible_draws": 0, "model_disagreements": 0, "oracle_failures": []}
+    for l in out.splitlines():
+        if l.startswith("PROPFAIL"):
+            res["inadmissible_draws"] += 1
+        elif l.startswith("MISMATCH"):
+            res["model_disagreements"] += 1
+    try:
+        cfgs, seqs, _ = split_seqs("\n".join(lines))
+        st = {k: 0 for k in ("o_budget", "o_step_bounds", "o_longest", "o_cancel", "o_fork_clone_start", "o_merge_exact", "o_api", "o_getters", "o_expo", "o_table", "o_call_site", "o_domain")}
+        for sq in seqs:
+            res["oracle_failures"] += ["%s@%d: %s" % (n, k, d[:160]) for n, k, d, c in oracles(cfgs, sq, st)]
+    except Exception as ex:  # replay files of older formats
+        res["oracle_failures"].append("unreadable: %r" % ex)
+    return res
+
+
 def main(tier, replay):
     t0 = time.time()
     v = Verdict(PID)
@@ -408,7 +448,7 @@ def main(tier, replay):
     env = vlib.goenv(); env["VERIF_SEED"] = str(vlib.SEED); env["VERIF_TIER"] = tier
     okm, modelrun = vlib.build_model("Backoff")
     okg, exe = vlib.go_build("backoff", roots=ROOTS)
-    stats = {k: 0 for k in ("o_budget", "o_step_bounds", "o_longest", "o_cancel", "o_fork_clone_start", "o_merge_exact", "o_api", "o_getters", "o_expo", "o_table", "o_call_site")}
+    stats = {k: 0 for k in ("o_budget", "o_step_bounds", "o_longest", "o_cancel", "o_fork_clone_start", "o_merge_exact", "o_api", "o_getters", "o_expo", "o_table", "o_call_site", "o_domain")}
     mstats, classes, samples, mism, pfails, ofails = {}, {}, [], [], [], []
     distinct = 0
     site_failures = 0
@@ -417,6 +457,9 @@ def main(tier, replay):
         pass          # a call-site replay re-runs the call-site driver only (same seed as recorded)
     elif okg and okm:
         case = json.load(open(replay)).get("case") if replay else None
+        if replay:
+            cov["replay_recorded_trace"] = recorded_trace_check(json.load(open(replay)), modelrun)
+            vlib.log("C20 replay, recorded trace (no code executed):", json.dumps(cov["replay_recorded_trace"]))
         res, err = run_pipeline(exe, modelrun, env, case)
         if err:
             v.violation({"kind": "harness", "correspondence": "Backoff driver", "error": err}, has_input=False)
